@@ -304,6 +304,42 @@ def moving_clock_cases():
                     out.append((text, way, str(t0), None if ok else
                                 'value %r outside the readings of its evaluation [%r, %r] (%d readings)'
                                 % (x, lo, hi, len(reads))))
+        # one function / model evaluated again and again while the clock moves on - less
+        # than a day across midnight, some hours, several days, back: every evaluation
+        # shows its own readings (Volatile!NeverFrozen with the clock as the volatile source)
+        day = datetime.datetime(2021, 6, 30, 23, 30, 0)
+        hops = [datetime.timedelta(0), datetime.timedelta(hours=1), datetime.timedelta(hours=17),
+                datetime.timedelta(hours=23, minutes=59), datetime.timedelta(days=3), datetime.timedelta(days=-2, hours=-1)]
+        for text in texts:
+            for way in ('compile', 'model'):
+                FakeClock.tick = None
+                if way == 'compile':
+                    run = f.Parser().ast(text)[1].compile()
+                else:
+                    m = f.ExcelModel().from_dict({'A1': text, 'B1': '=A1+0'})
+                    run = lambda m=m: m.calculate()['A1']
+                t = day
+                for hop in hops:
+                    t = t + hop
+                    FakeClock.current, FakeClock.tick, FakeClock.reads = t, datetime.timedelta(milliseconds=2), []
+                    try:
+                        v = scalar(run())
+                    except BaseException as ex:  # noqa
+                        if isinstance(ex, (KeyboardInterrupt, SystemExit)):
+                            raise
+                        out.append((text, way + '/again', str(t), 'raises %s' % type(ex).__name__))
+                        break
+                    reads = list(FakeClock.reads)
+                    FakeClock.tick = None
+                    if v.get('k') != 'f' or not reads:
+                        out.append((text, way + '/again', str(t), 'no number / no clock reading: %s' % V.show(v)))
+                        continue
+                    lo, hi = serial_of(reads[0]), serial_of(reads[-1])
+                    x = v['x']
+                    ok = int(lo) <= x <= int(hi) if 'TODAY' in text else lo - 1.5 / 86400 <= x <= hi + 1.5 / 86400
+                    out.append((text, way + '/again', str(t), None if ok else
+                                'value %r outside the readings of its evaluation [%r, %r] after the clock moved on'
+                                % (x, lo, hi)))
     finally:
         FakeClock.tick = None
     return out
